@@ -23,6 +23,14 @@ d=json.load(open('$r')); f=d.get('failure') or {}; print(str(f.get('signature') 
     echo "$n|$sigs"
   }
   q=$(run quick); t="-"
+  if [ "${q%%|*}" = 0 ] && [ -f $d/also_checks ]; then
+    own=$prop
+    for prop in $(cat $d/also_checks); do
+      q2=$(run quick)
+      if [ "${q2%%|*}" != 0 ]; then q="${q2%%|*}|[by ./check $prop] ${q2#*|}"; break; fi
+    done
+    prop=$own
+  fi
   if [ "${q%%|*}" = 0 ]; then t=$(run thorough); fi
   s="${q#*|}"; [ "${q%%|*}" = 0 ] && s="${t#*|}"
   printf '%s\t%s\tyes\t%s\t%s\t%s\n' $id $prop "$([ "${q%%|*}" = 0 ] && echo MISSED || echo caught:${q%%|*})" "$([ "$t" = - ] && echo - || ([ "${t%%|*}" = 0 ] && echo MISSED || echo caught:${t%%|*}))" "$s" >> $out
